@@ -453,6 +453,9 @@ func (p *Prog) inlineUnknownHelpers() error {
 			continue
 		}
 		name, sig, _ := strings.Cut(l, "\t")
+		if strings.HasPrefix(name, "field:") {
+			continue // struct fields of the reference tree: foldzero.go
+		}
 		known[name] = sig
 	}
 	if len(known) == 0 {
@@ -518,7 +521,7 @@ func (p *Prog) inlineUnknownHelpers() error {
 				}
 			}
 		}
-		if n != 1 || other || (g.Object() != nil && g.Object().Exported()) {
+		if n != 1 || other {
 			delete(unknown, g)
 			inlineLog = append(inlineLog, p.FuncName(g)+": new function with closures, not inlined (not exactly one plain call site)")
 		}
@@ -538,6 +541,7 @@ func (p *Prog) inlineUnknownHelpers() error {
 	}
 	touched := map[*ssa.Function]bool{}
 	done := map[*ssa.Function]bool{}
+	inlinedSomewhere := map[*ssa.Function]bool{}
 	for round := 0; round < 32; round++ {
 		// leaves first: unknown helpers that call no other pending unknown helper
 		var leaves []*ssa.Function
@@ -591,6 +595,9 @@ func (p *Prog) inlineUnknownHelpers() error {
 				}
 			}
 			done[g] = true
+			if n > 0 || g.Object() == nil || !g.Object().Exported() {
+				inlinedSomewhere[g] = true
+			}
 			inlineLog = append(inlineLog, fmt.Sprintf("%s: new function, inlined at %d call site(s)", p.FuncName(g), n))
 		}
 	}
@@ -619,7 +626,9 @@ func (p *Prog) inlineUnknownHelpers() error {
 	}
 	keep := p.Funcs[:0]
 	for _, fn := range p.Funcs {
-		if done[fn] && !referred[fn] && (fn.Object() == nil || !fn.Object().Exported()) {
+		// (an exported one too: in this form it is looked at as part of its callers, which is how code that
+		// existed before reaches it; the form as written still has it as a function of its own)
+		if done[fn] && !referred[fn] && inlinedSomewhere[fn] {
 			for _, b := range fn.Blocks {
 				for _, in := range b.Instrs {
 					for _, op := range in.Operands(ops[:0]) {
